@@ -20,7 +20,7 @@ OBLIGATIONS = ['PGA.Units.' + t for t in [
     'C10_parse_render', 'C10_eval_render', 'C10_eval_render_live', 'C10_eval_text', 'C10_eval_render_full_false',
     'C10_eval_render_fractional_partial',
     'C10_in_units_ratio', 'C10_in_units_incompatible', 'C10_in_units_incompatible_integral',
-    'C10_in_with_units_partial', 'C10_in_with_units_full_false', 'C10_from_to_SI', 'C10_to_from_SI',
+    'C10_in_with_units', 'C10_from_to_SI', 'C10_to_from_SI',
 ]]
 RULE = ('cases = unit/quantity expressions given to eval_qty and the conversion helpers: every unit name x every prefix '
         '(exhaustive), every chain of <= 3 factors over a 12-name alphabet with every operator (*, /, juxtaposition) '
@@ -189,7 +189,7 @@ def conversion_cases(ctx, si, batch):
     for i in range(n):
         a = rng.choice(exprs)
         b = rng.choice(exprs) if rng.random() < 0.6 else a
-        x = rng.choice([1, 2, -3, 0.5, 12.5, 1000, 1e-3, 7, 273.15, 4.184])
+        x = rng.choice([1, 2, -3, 0.5, 12.5, 1000, 1e-3, 7, 273.15, 4.184, 0, 0.0, 0])   # zero is a value like any other (F12)
         # Quantity.in_units / helpers.in_units
         qtext = '%r %s' % (x, a) if x >= 0 else '%r (%s)' % (x, a)
         qa = L.call(eval_qty, qtext)
